@@ -226,6 +226,11 @@ pub fn heartbeat_step(s: &mut Src, sh: &Shape) {
     if ctx {
         m.context = vec![7u8];
     }
+    // the node may be waiting for a snapshot it asked for (C16: heartbeats still renew the lease)
+    if s.bool() {
+        r.pending_request_snapshot = g.last();
+    }
+    let waiting = r.pending_request_snapshot != 0;
     let (term0, role0, lead0, vote0) = (r.term, r.state, r.leader_id, r.vote);
     let (mterm, mcommit) = (m.term, m.commit);
     let lower = r.check_quorum || r.pre_vote;
@@ -246,8 +251,19 @@ pub fn heartbeat_step(s: &mut Src, sh: &Shape) {
         forget(r);
         return;
     }
-    assert!(r.term == mterm && r.state == StateRole::Follower && r.leader_id == from && r.election_elapsed == 0);
+    assert!(r.term == mterm && r.state == StateRole::Follower && r.leader_id == from);
+    assert!(r.election_elapsed == 0, "a heartbeat from the leader must renew the election timer / lease");
     let exp = if mcommit > g.committed { mcommit } else { g.committed };
+    // a snapshot request survives heartbeats of the same term (a new term forgets it)
+    assert!(mterm > term0 || (r.pending_request_snapshot != 0) == waiting);
+    if r.pending_request_snapshot != 0 {
+        // while a requested snapshot is outstanding the node re-sends its request instead of answering
+        assert!(r.raft_log.committed == exp && r.msgs.len() == 1);
+        let a = &r.msgs[0];
+        assert!(a.get_msg_type() == MessageType::MsgAppendResponse && a.reject && a.request_snapshot == g.last() && a.to == from && a.index == exp);
+        forget(r);
+        return;
+    }
     assert!(r.raft_log.committed == exp, "heartbeat commit rule");
     assert!(r.msgs.len() == 1);
     let a = &r.msgs[0];
@@ -259,5 +275,36 @@ pub fn heartbeat_step(s: &mut Src, sh: &Shape) {
     }
     vcover!(r.raft_log.committed > g.committed, "commit advanced by heartbeat");
     vcover!(r.term > term0, "term advanced");
+    forget(r);
+}
+
+
+/// A delayed duplicate of a genuine MsgAppend reaches a follower that has meanwhile compacted
+/// its applied log beyond the append's anchor: anchor (base-1) is below the compaction point,
+/// the entries run up to the commit index.  Everything in it is already committed here: the
+/// follower must answer with its commit index - and must not trip over the compacted anchor.
+pub fn append_below_compaction(s: &mut Src, sh: &Shape) {
+    let (mut r, g) = mk_raft(s, sh);
+    assert!(sh.base >= 2, "harness parameter");
+    let term0 = r.term;
+    let mut m = msg(MessageType::MsgAppend, 2, term0);
+    m.index = sh.base - 1;
+    m.log_term = 1;
+    m.commit = g.committed;
+    let mut i = sh.base;
+    while i <= g.committed {
+        let mut e = Entry::default();
+        e.index = i;
+        e.term = g.term_at(i).unwrap();
+        m.entries.push(e);
+        i += 1;
+    }
+    let res = r.step(m);
+    assert!(res.is_ok());
+    assert!(r.term == term0 && r.raft_log.last_index() == g.last() && r.raft_log.committed == g.committed, "stale append changed the log / commit");
+    assert!(r.msgs.len() == 1);
+    let a = &r.msgs[0];
+    assert!(a.get_msg_type() == MessageType::MsgAppendResponse && a.to == 2 && !a.reject && a.index == g.committed, "stale append must be answered with the commit index");
+    crate::macros::reached_end();
     forget(r);
 }
